@@ -1,4 +1,9 @@
-use std::sync::atomic::{AtomicU8, AtomicUsize, Ordering};
+use std::sync::atomic::Ordering;
+#[cfg(not(gmquic_verif))]
+use std::sync::atomic::{AtomicU8, AtomicUsize};
+
+#[cfg(gmquic_verif)]
+use verif_atomic::{AtomicU8, AtomicUsize};
 
 use qbase::net::tx::{ArcSendWaker, Signals};
 
@@ -109,6 +114,121 @@ impl<const N: usize> AntiAmplifier<N> {
             self.tx_waker.wake_by(Signals::CREDIT);
         }
     }
+}
+
+/// Verification hook, compiled only with `--cfg gmquic_verif`: the two atomics of [`AntiAmplifier`]
+/// announce every atomic operation to a per-thread closure before performing it, so that a harness can
+/// run two method calls on two threads under a deterministic schedule, one atomic operation at a time.
+/// Without an installed closure they behave exactly like the `std` atomics they wrap.
+#[cfg(gmquic_verif)]
+pub mod verif_atomic {
+    use std::{cell::RefCell, sync::atomic::Ordering};
+
+    thread_local! {
+        static BEFORE: RefCell<Option<Box<dyn FnMut()>>> = const { RefCell::new(None) };
+    }
+
+    /// Install the closure this thread runs before each atomic operation of an [`AntiAmplifier`].
+    ///
+    /// [`AntiAmplifier`]: super::AntiAmplifier
+    pub fn set_before_atomic(f: Option<Box<dyn FnMut()>>) {
+        BEFORE.with(|b| *b.borrow_mut() = f);
+    }
+
+    fn before_atomic() {
+        let f = BEFORE.with(|b| b.borrow_mut().take());
+        if let Some(mut f) = f {
+            f();
+            BEFORE.with(|b| {
+                let mut b = b.borrow_mut();
+                if b.is_none() {
+                    *b = Some(f);
+                }
+            });
+        }
+    }
+
+    macro_rules! instrumented {
+        ($name:ident, $inner:ty, $prim:ty) => {
+            #[derive(Debug)]
+            pub struct $name($inner);
+
+            impl $name {
+                pub const fn new(v: $prim) -> Self {
+                    Self(<$inner>::new(v))
+                }
+                pub fn load(&self, o: Ordering) -> $prim {
+                    before_atomic();
+                    self.0.load(o)
+                }
+                pub fn store(&self, v: $prim, o: Ordering) {
+                    before_atomic();
+                    self.0.store(v, o)
+                }
+                pub fn swap(&self, v: $prim, o: Ordering) -> $prim {
+                    before_atomic();
+                    self.0.swap(v, o)
+                }
+                pub fn fetch_add(&self, v: $prim, o: Ordering) -> $prim {
+                    before_atomic();
+                    self.0.fetch_add(v, o)
+                }
+                pub fn fetch_sub(&self, v: $prim, o: Ordering) -> $prim {
+                    before_atomic();
+                    self.0.fetch_sub(v, o)
+                }
+                pub fn fetch_max(&self, v: $prim, o: Ordering) -> $prim {
+                    before_atomic();
+                    self.0.fetch_max(v, o)
+                }
+                pub fn fetch_min(&self, v: $prim, o: Ordering) -> $prim {
+                    before_atomic();
+                    self.0.fetch_min(v, o)
+                }
+                pub fn compare_exchange(
+                    &self,
+                    cur: $prim,
+                    new: $prim,
+                    s: Ordering,
+                    f: Ordering,
+                ) -> Result<$prim, $prim> {
+                    before_atomic();
+                    self.0.compare_exchange(cur, new, s, f)
+                }
+                pub fn compare_exchange_weak(
+                    &self,
+                    cur: $prim,
+                    new: $prim,
+                    s: Ordering,
+                    f: Ordering,
+                ) -> Result<$prim, $prim> {
+                    // never fails spuriously: the schedule decides every outcome
+                    before_atomic();
+                    self.0.compare_exchange(cur, new, s, f)
+                }
+                pub fn fetch_update<F: FnMut($prim) -> Option<$prim>>(
+                    &self,
+                    s: Ordering,
+                    f: Ordering,
+                    g: F,
+                ) -> Result<$prim, $prim> {
+                    before_atomic();
+                    self.0.fetch_update(s, f, g)
+                }
+            }
+
+            // any other method of the wrapped atomic stays available (not announced)
+            impl std::ops::Deref for $name {
+                type Target = $inner;
+                fn deref(&self) -> &$inner {
+                    &self.0
+                }
+            }
+        };
+    }
+
+    instrumented!(AtomicUsize, std::sync::atomic::AtomicUsize, usize);
+    instrumented!(AtomicU8, std::sync::atomic::AtomicU8, u8);
 }
 
 #[cfg(test)]
